@@ -490,3 +490,98 @@ func TestVerifReplay(t *testing.T) {
 `
 	return "kvstore", ".", src, true
 }
+
+// ---------- C02 ----------
+// The failing obligations are about panics, consumed-byte counts and allocation bounds for all
+// input bytes. The replay feeds the method of the failed obligation a deterministic family of
+// hostile inputs (all prefixes of patterned byte strings, maximal length prefixes, every lenType)
+// under recover() and runtime.MemStats.
+
+func init() { replayGens["c02"] = replayC02 }
+
+var reC02 = regexp.MustCompile(`^v2\.Deserializer\.(\w+)`)
+
+func replayC02(o *Obligation) (string, string, string, bool) {
+	m := reC02.FindStringSubmatch(o.Name)
+	if m == nil {
+		return "", "", "", false
+	}
+	call := map[string]string{
+		"ReadBool":              `var v bool; d.ReadBool(&v, ep)`,
+		"ReadByte":              `var v byte; d.ReadByte(&v, ep)`,
+		"ReadBytes":             `var v []byte; d.ReadBytes(&v, 5, ep)`,
+		"ReadBytesInPlace":      `v := make([]byte, 5); d.ReadBytesInPlace(v, ep)`,
+		"ReadVariableByteSlice": `var v []byte; d.ReadVariableByteSlice(&v, lt, ep, 0, 10)`,
+		"ReadString":            `var v string; d.ReadString(&v, lt, ep, 0, 10)`,
+		"readSliceLength":       `d.readSliceLength(lt, ep)`,
+		"ReadTime":              `var v time.Time; d.ReadTime(&v, ep)`,
+		"ReadUint256":           `var v *big.Int; d.ReadUint256(&v, ep)`,
+		"ReadPayloadLength":     `d.ReadPayloadLength()`,
+		"GetObjectType":         `d.GetObjectType(TypeDenotationUint32); d.GetObjectType(TypeDenotationByte)`,
+		"Skip":                  `d.Skip(3, ep)`,
+		"ReadNum":               `var v uint32; d.ReadNum(&v, ep); var w int64; d.ReadNum(&w, ep)`,
+		"ReadSequenceOfObjects": `calls := 0; d.ReadSequenceOfObjects(func(b []byte) (int, error) { calls++; if calls > 100000 { return 0, errors.New("stop") }; return 0, nil }, DeSeriModePerformValidation, lt, &ArrayRules{Max: 4}, ep); if calls > 4 { t.Fatalf("REPLAY-VIOLATION ReadSequenceOfObjects invoked the item deserializer %d times although validation limits the collection to 4 elements (input %x, lenType %d)", calls, in, lt) }`,
+	}[m[1]]
+	if call == "" {
+		return "", "", "", false
+	}
+	src := `package serializer
+
+import (
+	"errors"
+	"math/big"
+	"runtime"
+	"testing"
+	"time"
+)
+
+var _ = errors.New
+var _ = big.NewInt
+var _ time.Time
+
+func TestVerifReplay(t *testing.T) {
+	var inputs [][]byte
+	pat := []byte{0xff, 0xff, 0xff, 0x3f, 0x01, 0x00, 0x02, 0x7f, 0x80, 0xfe, 1, 2, 3, 4, 5, 6, 7, 8, 9, 10, 11, 12, 13, 14, 15, 16, 17, 18, 19, 20, 21, 22, 23, 24, 25, 26, 27, 28, 29, 30}
+	for n := 0; n <= len(pat); n++ {
+		inputs = append(inputs, pat[:n:n])
+		if n > 0 {
+			inputs = append(inputs, pat[len(pat)-n:])
+		}
+	}
+	inputs = append(inputs, []byte{0, 0, 0, 0x40}, []byte{5, 0, 0, 0, 1, 2}, []byte{2, 9, 9}, []byte{0xff, 0xff})
+	for _, lt := range []SeriLengthPrefixType{SeriLengthPrefixTypeAsByte, SeriLengthPrefixTypeAsUint16, SeriLengthPrefixTypeAsUint32} {
+		for _, nilEP := range []bool{false, true} {
+			for _, in := range inputs {
+				ep := func(err error) error {
+					if nilEP {
+						return nil
+					}
+					return err
+				}
+				_ = lt
+				d := NewDeserializer(in)
+				var before, after runtime.MemStats
+				runtime.ReadMemStats(&before)
+				func() {
+					defer func() {
+						if p := recover(); p != nil {
+							t.Fatalf("REPLAY-VIOLATION ` + m[1] + ` panicked on input %x (lenType %d): %v", in, lt, p)
+						}
+					}()
+					` + call + `
+				}()
+				runtime.ReadMemStats(&after)
+				n, _ := d.Done()
+				if n < 0 || n > len(in) {
+					t.Fatalf("REPLAY-VIOLATION ` + m[1] + ` reports %d consumed bytes of %d supplied (input %x)", n, len(in), in)
+				}
+				if alloc := after.TotalAlloc - before.TotalAlloc; alloc > uint64(1<<20) {
+					t.Fatalf("REPLAY-VIOLATION ` + m[1] + ` allocated %d bytes for the %d-byte input %x (lenType %d)", alloc, len(in), in, lt)
+				}
+			}
+		}
+	}
+}
+`
+	return "serializer", ".", src, true
+}
